@@ -44,9 +44,7 @@ theorem sound_aux (hw : w.WF) :
           | some j => simp [hi] at h; subst h; simp [conf, enumIdx_lt hi]
       | lit vs =>
         simp only [stF] at h
-        split at h
-        · rename_i hm; cases h; simpa [conf] using hm
-        · cases h
+        simpa [conf] using litStruct_litConf w h
       | coll k t' =>
         cases hit : iterItems o with
         | none => rw [stF_coll_none w cfg hit] at h; exact Leaf.sound w cfg hw _ _ o v h
